@@ -7,7 +7,17 @@ export GOFLAGS=-mod=mod GOPROXY=off GOSUMDB=off GOTOOLCHAIN=local
 export VERIF_WORK=${VERIF_WORK:-/var/tmp/verif-work}
 mkdir -p "$VERIF_WORK" bin evidence replays
 id=$1; tier=${2:-quick}
-cp /repo/go.sum go.sum 2>/dev/null
+# The checks build against /repo's current working tree. VERIF_REPO (development aid, used by seedtest.sh) points the
+# build at a scratch copy of the repository instead, through an alternative go.mod; nothing registered in MANIFEST uses it.
+REPO=${VERIF_REPO:-/repo}
+modfile=()
+if [ "$REPO" != /repo ]; then
+  alt="$VERIF_WORK/alt.$$"
+  sed "s#=> /repo\$#=> $REPO#" go.mod > "$alt.mod"; cp "$REPO/go.sum" "$alt.sum"
+  modfile=(-modfile "$alt.mod")
+else
+  cp /repo/go.sum go.sum 2>/dev/null
+fi
 tags=verif; overlay=(); ov=
 if [ "$id" = "C34" ]; then
   # C34: the mutexes of the evidence/session cache and of the servicer node become scheduling points. A shim
@@ -15,14 +25,14 @@ if [ "$id" = "C34" ]; then
   ov="$VERIF_WORK/ovl.$$"; mkdir -p "$ov"
   repl='{"Replace":{'
   for f in cache.go pocketNode.go; do
-    sed 's#^\t"sync"$#\tsync "github.com/pokt-network/pocket-core/x/pocketcore/types/vsync"#' "/repo/x/pocketcore/types/$f" > "$ov/$f"
+    sed 's#^\t"sync"$#\tsync "github.com/pokt-network/pocket-core/x/pocketcore/types/vsync"#' "$REPO/x/pocketcore/types/$f" > "$ov/$f"
     if ! grep -q 'types/vsync"' "$ov/$f"; then
       echo "HARNESS-ERROR: cannot hook the sync import of x/pocketcore/types/$f"; rm -rf "$ov"; exit 2
     fi
-    repl="$repl\"/repo/x/pocketcore/types/$f\":\"$ov/$f\","
+    repl="$repl\"$REPO/x/pocketcore/types/$f\":\"$ov/$f\","
   done
   cp sched/vsync.go.src "$ov/vsync.go"
-  printf '%s"/repo/x/pocketcore/types/vsync/vsync.go":"%s/vsync.go"}}\n' "$repl" "$ov" > "$ov/overlay.json"
+  printf '%s"%s/x/pocketcore/types/vsync/vsync.go":"%s/vsync.go"}}\n' "$repl" "$REPO" "$ov" > "$ov/overlay.json"
   tags="verif vsched"; overlay=(-overlay "$ov/overlay.json")
 fi
 if [ "$id" = "C12" ]; then
@@ -33,14 +43,14 @@ if [ "$id" = "C12" ]; then
     echo "HARNESS-ERROR: cannot derive the map-order seam from $goroot/src/runtime/map.go"; rm -rf "$ov"; exit 2
   fi
   printf '{"Replace":{"%s/src/runtime/map.go":"%s/map.go.txt"}}\n' "$goroot" "$ov" > "$ov/rt.json"
-  if ! go build -tags verif -overlay "$ov/rt.json" -o "$ov/vb.maprot" ./cmd/verifbin 2>"$VERIF_WORK/build.$id.log" ||
-     ! go build -tags "verif faketime" -o "$ov/vb.faketime" ./cmd/verifbin 2>>"$VERIF_WORK/build.$id.log"; then
+  if ! go build "${modfile[@]}" -tags verif -overlay "$ov/rt.json" -o "$ov/vb.maprot" ./cmd/verifbin 2>"$VERIF_WORK/build.$id.log" ||
+     ! go build "${modfile[@]}" -tags "verif faketime" -o "$ov/vb.faketime" ./cmd/verifbin 2>>"$VERIF_WORK/build.$id.log"; then
     echo "HARNESS-ERROR: seam build failed (see $VERIF_WORK/build.$id.log)"; tail -30 "$VERIF_WORK/build.$id.log"; rm -rf "$ov"; exit 2
   fi
   export VERIF_BIN_MAPROT="$ov/vb.maprot" VERIF_BIN_FAKETIME="$ov/vb.faketime"
 fi
-if ! go build -tags "$tags" "${overlay[@]}" -o bin/vb.$$ ./cmd/verifbin 2>"$VERIF_WORK/build.$id.log"; then
+if ! go build "${modfile[@]}" -tags "$tags" "${overlay[@]}" -o bin/vb.$$ ./cmd/verifbin 2>"$VERIF_WORK/build.$id.log"; then
   echo "HARNESS-ERROR: build failed (see $VERIF_WORK/build.$id.log)"; tail -30 "$VERIF_WORK/build.$id.log"
   [ -n "$ov" ] && rm -rf "$ov"; exit 2
 fi
-./bin/vb.$$ check "$id" --tier "$tier"; rc=$?; rm -f bin/vb.$$; [ -n "$ov" ] && rm -rf "$ov"; exit $rc
+./bin/vb.$$ check "$id" --tier "$tier"; rc=$?; rm -f bin/vb.$$; [ -n "$ov" ] && rm -rf "$ov"; [ "$REPO" != /repo ] && rm -f "$alt.mod" "$alt.sum"; exit $rc
